@@ -10,6 +10,7 @@ _T = ["scalar_reduce_eq", "scalar_negate_eq", "scalar_complement_eq", "scalar_ad
       "xmd_eq_rfc", "xmd_eq_libsodium", "xmd_oversize_deviation", "from_string_eq_spec", "from_string_eq_rfc", "from_string_bad_alg", "ristretto_from_string_eq_spec", "from_string_ro_eq"]
 THEOREMS = vcore.theorems_in("SodiumModel/Properties/C07.lean", _T, "Sodium.C07")
 IMPORTS = ["SodiumModel.Properties.C07"] if THEOREMS else ["SodiumModel.Spec.Ed25519"]
+TABLES = ['core_ed25519_L_eq']      # Tie B: kernel-checked `table regenerated from the source = model table`
 RULE = ("structured 32-byte encodings: every small-order point and alias, y >= p, x = 0 with sign bit, non-squares, prime-order points shifted by each torsion point, random; "
         "scalars 0, 1, L-1, L, L+1, 2L, 8L, 2^252 +- k, 2^255 +- k, all-ones, random reduced and unreduced, 64-byte inputs up to 2^512-1; hash-to-group for both hashes, NU and RO, "
         "contexts NULL / empty / up to 255 / longer than 255 bytes; Ristretto negative / non-canonical encodings; every op on ed25519 and ristretto255 wrappers")
